@@ -12,5 +12,6 @@ CONSTANTS
   FwdHonoursTerm = TRUE
   InitViaQueue = TRUE
   ClearCache = FALSE
+  DrainKeepsTerm = FALSE
 INVARIANTS TypeOK EventsOnceAndCausal
 ALIAS BehAlias
